@@ -1,0 +1,7 @@
+//go:build !verif
+
+package operator
+
+import "reduction.dev/reduction/proto/workerpb"
+
+func (o *Operator) verifRetune(*workerpb.DeployOperatorRequest) {}
